@@ -601,6 +601,24 @@ def r6_recognition_by_content(ctx, res):
     if single != pkg or not single:
         res.find(key, tv.loc(), f'the single-file route recognises resources with {sorted(single)} but the package route with {sorted(pkg)}: '
                                 f'the same file is accepted on one route and rejected on the other')
+    # the ILI recogniser looks at the first TAB-separated field of the first line - the delimiter the ILI loader splits by
+    # (C19-R6): a recogniser that splits differently accepts files the loader reads differently, and any text file that
+    # starts with the word makes a package "have two resources"
+    sv = view(ctx, '_ili', 'is_ili')
+    key = 'ili-recogniser:first-tab-field'
+    pos = [r for r in sv.rows if r[0] == 'return' and r[1] not in ('False', 'True')]
+    res.inst(key, sv.loc(), f'{[r[1][:70] for r in pos]}')
+    ok = len(pos) == 1 and _re.fullmatch(r"next\(.+\)\.split\(b'\\t'\)\[0\] in \(b'ili', b'ILI'\)", pos[0][1]) is not None \
+        and not any(r[0] == 'return' and r[1] == 'True' for r in sv.rows)
+    if not ok:
+        res.find(key, sv.loc(), f'_ili.is_ili no longer accepts exactly the files whose first line starts with the TAB-delimited field ili / ILI: '
+                                f'{[r[1][:90] for r in pos]}')
+    lv = view(ctx, '_ili', 'load')
+    key = 'ili-recogniser:same-delimiter-as-loader'
+    hdr = [r for r in lv.rows if r[0] in ('eval', 'yield') and ".split('\\t')" in r[1]]
+    res.inst(key, lv.loc(), f'{len(hdr)} tab splits in the loader')
+    if not hdr:
+        res.find(key, lv.loc(), '_ili.load no longer splits its lines at tabs while is_ili sniffs the first tab-delimited field')
     # every file of a package directory is classified, with no other filter
     pv = view(ctx, 'project', '_package_directory_types')
     apps = [r for r in pv.rows if r[0] == 'call' and _re.match(r'#\d+\.append\(', r[1])]
@@ -633,5 +651,5 @@ RULES = [
     ('C07-R3', r3_input_not_modified, 40),
     ('C07-R4', r4_files, 8),
     ('C07-R5', r5_per_item_state, 2),
-    ('C07-R6', r6_recognition_by_content, 5),
+    ('C07-R6', r6_recognition_by_content, 7),
 ]
